@@ -1535,6 +1535,7 @@ func ruleDriver(c *Ctx) {
 		}
 		return eq, true
 	}
+	b.cursorDrivers(l, sp)
 	nDrivers := 0
 	for _, fn := range b.srcFuncs(sp) {
 		if recvTypeName(fn) == "scanner" {
@@ -2281,4 +2282,71 @@ func straightToNextIteration(s, h *ssa.BasicBlock) bool {
 		s = s.Succs[0]
 	}
 	return false
+}
+
+// cursorDrivers (R-DRIVER): the validity-assuming decoder walks its input with a cursor of its
+// own (skip, scanWhile, scanNext) and keeps the scanner in step with it. The cursor moves
+// forward only over a byte that was shown to the scanner: every `index + constant` in such a
+// function is `i + 1` in the block of a step call whose byte is data[i] (the end-of-input mark
+// len(data)+1 aside). A shortcut that jumps to the closing quote of a string by looking for
+// an unescaped quote moves the cursor past bytes the scanner never saw — and past the quote
+// itself when the string ends in an escaped backslash: the decoder then reads outside the
+// value it was promised is well-formed.
+func (b *Body) cursorDrivers(l *Ledger, sp *ssa.Package) {
+	for _, fn := range b.srcFuncs(sp) {
+		if recvTypeName(fn) != "decodeState" || fn.Parent() != nil {
+			continue
+		}
+		calls := stepCalls(fn)
+		if len(calls) == 0 {
+			continue
+		}
+		key := fmt.Sprintf("cursor %s: moves forward only over a byte shown to the scanner", fname(fn))
+		bad := ""
+		n := 0
+		allInstrs(fn, func(i ssa.Instruction) {
+			bo, ok := i.(*ssa.BinOp)
+			if !ok || bo.Op != token.ADD {
+				return
+			}
+			var idx ssa.Value
+			var k int64
+			if c, isK := intConst(bo.Y); isK {
+				idx, k = bo.X, c
+			} else if c, isK := intConst(bo.X); isK {
+				idx, k = bo.Y, c
+			} else {
+				return
+			}
+			if bt, isB := idx.Type().Underlying().(*types.Basic); !isB || bt.Kind() != types.Int {
+				return
+			}
+			if lengthDerived(idx) {
+				return // len(data) + 1: the mark for "end of input processed"
+			}
+			n++
+			shown := false
+			for _, c := range calls {
+				if c.Block() != bo.Block() || len(c.Call.Args) < 2 {
+					continue
+				}
+				if ld, ok := c.Call.Args[1].(*ssa.UnOp); ok {
+					if ia, ok := ld.X.(*ssa.IndexAddr); ok && sameCollection(ia.Index, idx) {
+						shown = true
+					}
+				}
+			}
+			switch {
+			case k != 1:
+				bad = fmt.Sprintf("the cursor is moved by %d at %s", k, b.posOf(bo))
+			case !shown:
+				bad = "the cursor is moved at " + b.posOf(bo) + " over a byte that is not handed to the scanner's step function in the same step: the scanner and the decoder's position go apart, on a text the decoder does not check again"
+			}
+		})
+		if bad != "" {
+			l.add("R-DRIVER", "codec", key, b.rel(fn.Pos()), Violated, bad, true)
+		} else if n > 0 {
+			l.add("R-DRIVER", "codec", key, b.rel(fn.Pos()), Discharged, fmt.Sprintf("%d advance(s) of the cursor, each by one, each in the block of step(scan, data[i]) for the same i", n), true)
+		}
+	}
 }
